@@ -85,6 +85,18 @@ func VerifC05_RealCandidates() {
 			verifrt.Assert(cs[0].Certificate == ca, "dbg: candidate is the CA")
 		}
 	}
+	if verifrt.Choose(2) == 1 {
+		// the same validator first checked a certificate of the PREVIOUS generation of this CA (same name,
+		// other key): nothing of that lookup may decide who can vouch for the present certificate
+		caOld := &x509.Certificate{SerialNumber: big.NewInt(77770), PublicKeyAlgorithm: x509.RSA, Extensions: ski(0x44), IsCA: true}
+		subjectOf[caOld], issuerOf[caOld] = "CN=CA", "CN=CA"
+		clientOld := clientCert("CN=client-old", "CN=CA", big.NewInt(77771), "http://ocsp-old")
+		clientOld.PublicKeyAlgorithm = x509.RSA
+		candidates = append(candidates, caOld) // index 3
+		_, _ = c.IsRevoked(clientOld, [][]*x509.Certificate{{clientOld, caOld}})
+		httpScript["http://ocsp|3"] = 1
+		verifrt.Reach("earlier-lookup-of-older-generation")
+	}
 	st, err := c.IsRevoked(client, [][]*x509.Certificate{{client, ca}})
 	used := err == nil && st != nil && st.OcspResponse != nil
 	if signer == 1 {
